@@ -178,10 +178,14 @@ func newREnv() (e *renv, err error) {
 	e = &renv{tr: newTracker(), fence: make(chan string, 64)}
 	vivid.VerifSetDefaultDispatcher(e.tr)
 	quiet := silent.Provide()
+	var contacts [2]contactProvider
 	for i := 0; i < 2; i++ {
+		contacts[i] = make(contactProvider, 4)
+		cp := contacts[i]
 		e.sys[i] = vivid.NewActorSystem(vivid.FunctionalActorSystemConfigurator(func(c *vivid.ActorSystemConfiguration) {
 			c.WithLoggerProvider(log.FunctionalLoggerProvider(func() *log.Logger { return quiet }))
 			c.WithShared("127.0.0.1:0")
+			c.WithSubscriptionContactProviders(cp)
 			c.WithName(fmt.Sprintf("c10n%d", i))
 		}))
 		e.sys[i].ActorOfF(func() vivid.Actor { return &fenceActor{e: e} }, func(d *vivid.ActorDescriptor) {
@@ -207,8 +211,26 @@ func newREnv() (e *renv, err error) {
 			return e, fmt.Errorf("the link between the two systems did not come up")
 		}
 	}
+	// the peer is announced a second time, by a contact provider (what the cluster package does when a node joins, in
+	// addition to the share-opened hook): announcing a known peer again must change nothing
+	for i := 0; i < 2; i++ {
+		contacts[i] <- &vivid.SubscriptionContactEvent{Address: e.sys[1-i].PhysicalAddress()}
+	}
+	time.Sleep(20 * time.Millisecond)
+	if !e.tr.quiet(quietTimeout) {
+		return e, fmt.Errorf("the second announcement of the peers did not become quiet")
+	}
+	for i := 0; i < 2; i++ {
+		if !e.doFence(i) {
+			return e, fmt.Errorf("the link between the two systems did not survive the second announcement")
+		}
+	}
 	return e, nil
 }
+
+type contactProvider chan *vivid.SubscriptionContactEvent
+
+func (p contactProvider) ChangeNotify() <-chan *vivid.SubscriptionContactEvent { return p }
 
 // doFence sends a fence from node `from` to the fence actor of the other node and waits for its arrival.
 func (e *renv) doFence(from int) bool {
